@@ -50,8 +50,13 @@ func (msg Message) generateUnmarshalBebop(w *iohelp.ErrorWriter, settings Genera
 	writeLine(w, "func (bbp *%s) UnmarshalBebop(buf []byte) (err error) {", exposedName)
 	writeLine(w, "\tat := 0")
 	writeLengthCheck(w, "4", 1)
-	writeLine(w, "\t_ = iohelp.ReadUint32Bytes(buf[at:])")
+	writeLine(w, "\tbodyLen := int(iohelp.ReadUint32Bytes(buf[at:]))")
 	writeLine(w, "\tbuf = buf[4:]")
+	// the message ends where its length prefix says, whatever follows it in buf
+	writeLine(w, "\tif len(buf) < bodyLen {")
+	writeLine(w, "\t\treturn io.ErrUnexpectedEOF")
+	writeLine(w, "\t}")
+	writeLine(w, "\tbuf = buf[:bodyLen]")
 	writeLine(w, "\tfor {")
 	writeLengthCheck(w, "1", 2)
 	writeLine(w, "\t\tswitch buf[at] {")
